@@ -56,9 +56,19 @@ def p1_one_draw(ctx: Ctx):
     ctx.check(r[0] == 'return' and isinstance(r[1], Opaque) and norm(r[1].node) == 'random.getrandbits(k)', REALS, r[2] or g, 'RealFloat._generate_randbits', 'no generator -> module random, k bits', f'got {r[1]!r}')
     r = decide(repo, REALS, g.body, {'rng': Inst('Random'), 'isinstance(rng, random.Random)': True})
     ctx.check(r[0] == 'return' and isinstance(r[1], Opaque) and norm(r[1].node) == 'rng.getrandbits(k)', REALS, r[2] or g, 'RealFloat._generate_randbits', 'random.Random -> rng.getrandbits(k)', f'got {r[1]!r}')
-    r = decide(repo, REALS, g.body, {'rng': Inst('Generator'), 'isinstance(rng, random.Random)': False})
+    r = decide(repo, REALS, g.body, {'rng': Inst('Generator'), 'isinstance(rng, random.Random)': False, 'k < 63': True}, lenient=True)
     ctx.check(r[0] == 'return' and isinstance(r[1], Opaque) and norm(r[1].node) == 'int(rng.integers(0, 1 << k))', REALS, r[2] or g, 'RealFloat._generate_randbits',
               'numpy Generator -> uniform integer in [0, 2**k)', f'got {r[1]!r}')
+    # numpy draws integers of at most 64 bits (`high` must fit an int64): wider requests take bytes, in one draw,
+    # and keep exactly k of the bits
+    try:
+        r = decide(repo, REALS, g.body, {'rng': Inst('Generator'), 'isinstance(rng, random.Random)': False, 'k < 63': False}, on_assign=lambda st, e: isinstance(st, ast.Assign))
+    except Exception as ex:
+        r = ('undecided', ex, None)
+    t = norm(g, 4000)
+    wide = r[0] == 'return' and isinstance(r[1], Opaque) and norm(r[1].node) == "int.from_bytes(rng.bytes(nbytes), 'little') >> 8 * nbytes - k" and 'nbytes = (k + 7) // 8' in t
+    ctx.check(wide, REALS, r[2] or g, 'RealFloat._generate_randbits', 'numpy Generator, k >= 63 -> k bits of ceil(k / 8) drawn bytes (one draw)',
+              f'got {r[0]} {r[1]!r}: `rng.integers(0, 1 << k)` raises for k >= 63 (high is out of bounds for int64)')
 
 
 def t1_final_rounding(ctx: Ctx):
@@ -170,6 +180,10 @@ MUTANTS = [
     Mutant('draw-only-when-inexact', REALS, "        randbits = self._generate_randbits(rng, num_randbits)\n\n        # step 3", "        randbits = 0\n\n        # step 3", 'C17.P1'),
     Mutant('draw-twice', REALS, "            round_up = randbits + lost_c >= (1 << num_randbits)", "            round_up = self._generate_randbits(rng, num_randbits) + lost_c >= (1 << num_randbits)", 'C17.P1'),
     Mutant('draw-from-global', REALS, "        randbits = self._generate_randbits(rng, num_randbits)", "        randbits = self._generate_randbits(None, num_randbits)", 'C17.P1'),
+    Mutant('numpy-wide-draw-refused', REALS, "        elif k < 63:\n            return int(rng.integers(0, 1 << k))\n        else:\n            # a numpy `Generator` draws integers of at most 64 bits: take\n            # the bytes (one draw still) and drop the surplus bits\n            nbytes = (k + 7) // 8\n            return int.from_bytes(rng.bytes(nbytes), 'little') >> (8 * nbytes - k)\n",
+           "        else:\n            return int(rng.integers(0, 1 << k))\n", 'C17.P1', 'finding F65 before its repair: k >= 63 raises with a numpy Generator'),
+    Mutant('numpy-wide-draw-keeps-surplus-bits', REALS, "            return int.from_bytes(rng.bytes(nbytes), 'little') >> (8 * nbytes - k)", "            return int.from_bytes(rng.bytes(nbytes), 'little')", 'C17.P1',
+           'up to 7 bits too many: the draw is no longer below 2**k'),
     Mutant('numpy-range-off', REALS, "            return int(rng.integers(0, 1 << k))", "            return int(rng.integers(0, k))", 'C17.P1'),
     Mutant('direction-flipped', REALS, "rand_rm = RoundingMode.RAZ if round_up else RoundingMode.RTZ", "rand_rm = RoundingMode.RTZ if round_up else RoundingMode.RAZ", 'C17.T1',
            'the history records this very defect'),
